@@ -17,7 +17,10 @@ Abstractions (all justified in `Rg/Props/C13.lean`'s header):
 * conversion / type-check / pattern-compilation outcomes of a file are inputs (`convErr`, `declsErr`,
   `FuncDecl.bad`, `RuleDecl.bad`, `BundleDecl.err`).
 
-`fixed = false` is the code as it is; `fixed = true` is the code after `verif/fixes/c13-*.diff`.
+`fixed = false` is the code as it is; `fixed = true` is the code after `verif/fixes/c13-*.diff`
+(including `c13-own-funcs.diff`: the names a rule gives to `Do` / `Filter` are resolved among the functions
+compiled from the custom declarations of the rule's own file, `irLoader.customFuncs`; the engine-wide
+name table is only used for calls between functions).
 -/
 namespace LoadM
 
@@ -162,9 +165,27 @@ def compileFilterFuncs (fixed : Bool) (env : Env) (u : FileUnit) : Env × Out Un
   let env := if fixed then env.forget (u.funcs.map fun d => (gorules, d.name)) else env
   compileFuncs env u.funcs
 
+/-- repaired loader only: `irLoader.customFuncs` once the declaration loop of `compileFilterFuncs` has
+compiled every declaration of `ds`: name ↦ the function compiled from it, written as the id that function
+got in `userFuncs` (`base` = number of functions the engine held when the loop started; every declaration
+adds exactly one).  Most recent first, so that a lookup finds what the Go map holds after
+`l.customFuncs[name] = compiled` ran for the declarations in order.
+(`Rg/Proofs/Loads.lean:compileFuncs_names`: this is exactly the segment the loop prepends to the name table.) -/
+def customFuncs (base : Nat) : List FuncDecl → List (Nat × Nat)
+  | [] => []
+  | d :: ds => customFuncs (base + 1) ds ++ [(d.name, base)]
+
+/-- `l.customFuncs[name]` (a nil map — no declarations — has no entries) -/
+def ownLookup (own : List (Nat × Nat)) (n : Nat) : Option Nat :=
+  match own.find? (fun x => x.1 == n) with
+  | some x => some x.2
+  | none => none
+
 /-! ## loadRuleGroup / loadRule -/
 
-/-- `Env.GetFunc` (as is: a missing key reads id 0) followed by the caller's nil check -/
+/-- `Env.GetFunc` (as is: a missing key reads id 0; repaired: nil) followed by the caller's nil check.
+The repaired loader no longer calls it for rules (`ownFunc` below); `getFunc true` remains the model of the
+repaired public `Env.GetFunc`. -/
 def getFunc (fixed : Bool) (env : Env) (k : Nat × Nat) : Out Nat :=
   match env.lookup k with
   | some id => if id < env.funcs.length then .ok id else .panic .index
@@ -172,62 +193,80 @@ def getFunc (fixed : Bool) (env : Env) (k : Nat × Nat) : Out Nat :=
     if fixed then .err .nofunc
     else if 0 < env.funcs.length then .ok 0 else .panic .index
 
-def getFuncOpt (fixed : Bool) (env : Env) (pkg : Nat) : Option Nat → Out (Option Nat)
+/-- repaired loader: `l.customFuncs[name]` followed by the caller's nil check
+("can't find a compiled version of …"); the map holds the `*quasigo.Func` itself, nothing is indexed -/
+def ownFunc (own : List (Nat × Nat)) (n : Nat) : Out Nat :=
+  match ownLookup own n with
+  | some id => .ok id
+  | none => .err .nofunc
+
+/-- how `loadRule` / `newFilter` turn a `Do` / `Filter` function name into a function:
+as is `l.state.env.GetFunc(l.file.PkgPath, name)`, repaired `l.customFuncs[name]` (`own`) -/
+def getFuncOpt (fixed : Bool) (env : Env) (own : List (Nat × Nat)) (pkg : Nat) : Option Nat → Out (Option Nat)
   | none => .ok none
-  | some n => match getFunc fixed env (pkg, n) with
+  | some n => match (if fixed then ownFunc own n else getFunc false env (pkg, n)) with
     | .ok id => .ok (some id)
     | .err e => .err e
     | .panic p => .panic p
 
-def loadRule (fixed : Bool) (env : Env) (pkg : Nat) (g : Nat × Nat) (r : RuleDecl) : Out Rule :=
-  match getFuncOpt fixed env pkg r.doFn with
+def loadRule (fixed : Bool) (env : Env) (own : List (Nat × Nat)) (pkg : Nat) (g : Nat × Nat) (r : RuleDecl) :
+    Out Rule :=
+  match getFuncOpt fixed env own pkg r.doFn with
   | .panic p => .panic p
   | .err e => .err e
   | .ok d =>
-    match getFuncOpt fixed env pkg r.filtFn with
+    match getFuncOpt fixed env own pkg r.filtFn with
     | .panic p => .panic p
     | .err e => .err e
     | .ok f =>
       if r.bad then .err .rule
       else .ok ⟨g, r.line, r.bucket, r.key, r.wild, r.msg, d, f⟩
 
-def loadRules (fixed : Bool) (env : Env) (pkg : Nat) (g : Nat × Nat) : List RuleDecl → Out (List Rule)
+def loadRules (fixed : Bool) (env : Env) (own : List (Nat × Nat)) (pkg : Nat) (g : Nat × Nat) :
+    List RuleDecl → Out (List Rule)
   | [] => .ok []
   | r :: rs =>
-    match loadRule fixed env pkg g r with
+    match loadRule fixed env own pkg g r with
     | .panic p => .panic p
     | .err e => .err e
     | .ok x =>
-      match loadRules fixed env pkg g rs with
+      match loadRules fixed env own pkg g rs with
       | .ok xs => .ok (x :: xs)
       | o => o
 
 /-- `loadRuleGroup`: prefix, GroupFilter early return, duplicate check, register, load the rules -/
-def loadGroup (fixed : Bool) (env : Env) (pkg pfx file : Nat) (rejected : List (Nat × Nat))
+def loadGroup (fixed : Bool) (env : Env) (own : List (Nat × Nat)) (pkg pfx file : Nat) (rejected : List (Nat × Nat))
     (res : RuleSet) (g : GroupDecl) : Out RuleSet :=
   let name := (pfx, g.name)
   if rejected.contains name then .ok res
   else if res.groups.any (fun x => x.name == name) then
     (if fixed then .err .redef else .panic .explicit)   -- "duplicated function … after the typecheck"
   else
-    match loadRules fixed env pkg name g.rules with
+    match loadRules fixed env own pkg name g.rules with
     | .ok rs => .ok { rules := res.rules ++ rs, groups := res.groups ++ [⟨name, file, g.line⟩] }
     | .err e => .err e
     | .panic p => .panic p
 
-def loadGroups (fixed : Bool) (env : Env) (pkg pfx file : Nat) (rejected : List (Nat × Nat))
+def loadGroups (fixed : Bool) (env : Env) (own : List (Nat × Nat)) (pkg pfx file : Nat) (rejected : List (Nat × Nat))
     (res : RuleSet) : List GroupDecl → Out RuleSet
   | [] => .ok res
   | g :: gs =>
-    match loadGroup fixed env pkg pfx file rejected res g with
-    | .ok res' => loadGroups fixed env pkg pfx file rejected res' gs
+    match loadGroup fixed env own pkg pfx file rejected res g with
+    | .ok res' => loadGroups fixed env own pkg pfx file rejected res' gs
     | o => o
+
+/-- the `own` argument of the rule loaders for unit `u` loaded into `env`: the repaired loader's `customFuncs`
+after a successful `compileFilterFuncs` (`Env.forget` leaves `userFuncs` alone, so the first function of the
+unit gets id `env.funcs.length`); the code as it is has no such map -/
+def ownOf (fixed : Bool) (env : Env) (u : FileUnit) : List (Nat × Nat) :=
+  if fixed then customFuncs env.funcs.length u.funcs else []
 
 /-- `LoadFile` without its bundle part -/
 def loadUnit (fixed : Bool) (env : Env) (pkg pfx : Nat) (rejected : List (Nat × Nat)) (u : FileUnit) :
     Env × Out RuleSet :=
   match compileFilterFuncs fixed env u with
-  | (env', .ok ()) => (env', loadGroups fixed env' pkg pfx u.file rejected ⟨[], []⟩ u.groups)
+  | (env', .ok ()) =>
+    (env', loadGroups fixed env' (ownOf fixed env u) pkg pfx u.file rejected ⟨[], []⟩ u.groups)
   | (env', .err e) => (env', .err e)
   | (env', .panic p) => (env', .panic p)
 
